@@ -435,7 +435,7 @@ class Edge:
         0.4
         """
         first, args = popfirst(args)
-        value = first or self.get_spread_prob()
+        value = self.get_spread_prob() if first is None else first
 
         if self.is_growth:
             self.set_spread_prob(kwargs.get("growth", value))
@@ -448,7 +448,7 @@ class Edge:
             and not self.is_growth
         ):
             first, args = popfirst(args)
-            value = first or self.get_micro_mod()
+            value = self.get_micro_mod() if first is None else first
             self.set_micro_mod(kwargs.get("micro", value))
 
         return args
